@@ -161,6 +161,9 @@ func cmdDump(args []string) {
 			if os.Getenv("GOVC_FOCUS") == "1" {
 				o.Focus = true
 			}
+			if os.Getenv("GOVC_LEAN") == "1" {
+				o.Lean = true
+			}
 			fmt.Printf("; %s\n%s\n", o.Name, o.Query(true))
 			return
 		}
